@@ -142,6 +142,13 @@ CHECKS = {
              'on a real provider, sends every request over the loop-back transport and TLC judges only-selected / all-selected / at-most-once and the text constraints.',
         note='Trusted: abstraction of the real MDIB/text store read back from the provider tables.',
         design_ref='6/C20'),
+    'C13': dict(
+        technique='TLA+ spec Pipeline.tla (Read -> Decode -> Route -> Parse -> Validate -> Dispatch -> Handle -> Respond over a finite product of input classes; Total under fairness, Outcome, NoEscape, NoSpin, BoundedRead, NoExpansion, NoFetch, RejectIsNoop) checked by TLC; every abstract request concretised and fed to the real handler and middleware; judged by TLC (PipelineTrace.tla)',
+        text='TLC enumerates 31057 abstract requests (path x framing x content coding x XML form incl. DOCTYPE/entity classes x envelope mutations x request type x entry point) and proves termination of the model; '
+             'each is concretised into bytes and fed to the real DispatchingRequestHandler on an in-memory socket (read-count watchdog, hard timeout) and to MessageConverterMiddleware.do_post of a real '
+             'provider and consumer; socket guard and lxml resolver spy record fetches; MDIB and subscription-table projections before/after. TLC judges status, body class, escapes, spins, expansion, no-op on reject.',
+        note='Trusted: finite input classes (no byte-level fuzzing); in-memory socket; only the first response per connection is judged.',
+        design_ref='6/C13'),
 }
 
 NOT_YET = 'check not built yet in this round (see DESIGN.md section 10 build order); no claim made'
